@@ -209,6 +209,14 @@ func seenMeta(ctx context.Context, id int) string {
 	sort.Strings(parts)
 	if rm, ok := ctx.Value(share.ResMetaDataKey).(map[string]string); ok && rm != nil {
 		rm["resp-id"] = strconv.Itoa(id)
+		// every other request gets what it sent under k0 / k1 passed back unchanged (a trace or tenant id handed through)
+		if m, ok := ctx.Value(share.ReqMetaDataKey).(map[string]string); ok && id%2 == 1 {
+			for _, k := range []string{"k0", "k1"} {
+				if v, has := m[k]; has {
+					rm[k] = v
+				}
+			}
+		}
 	}
 	return strings.Join(parts, "&")
 }
